@@ -159,6 +159,7 @@ func (c *Ctx) ruleIncrementSite(rule string) {
 	v := c.vocab([]string{"step", "cap="}, map[string]bool{"step": true})
 	sr := v.seq(rule, false)
 	sr.condExpr = func(fr *Frame, e ast.Expr, branch bool, ip *Interp, st *State) string { return c.capSym(fr, e, branch) }
+	sr.relevant = func(f *Func) bool { return f != R.Step } // the guard may sit in a helper predicate
 	steps := 0
 	for _, sg := range sr.segments(R.DispLoop) {
 		if !sg.has("step") {
